@@ -10,7 +10,7 @@ R_THOROUGH = ["cases.tl", "goldmaster.tl", "goldmaster2.tl", "goldmaster3.tl", "
 
 def run_gen(prop, tier, regex, props=None, optsets=("full",), params_q=None, params_t=None, level="model_checking", f_pattern="*",
             r_quick=(), r_thorough=(), wall_q="90s", wall_t="600s", bounds=None, outside=None, assumptions=(), only=None, max_models_q=6, max_models_t=30,
-            max_paths_q=3000, max_paths_t=60000, hgen_extra=(), ladder=None):
+            max_paths_q=1500, max_paths_t=60000, hgen_extra=(), ladder=None, prim=None):
     c = GenCheck(prop, tier, level)
     params = dict(params_q or {}) if tier == "quick" else dict(params_t or params_q or {})
     corpus = corpus_f(f_pattern) + corpus_r(list(r_quick) if tier == "quick" else list(r_thorough))
@@ -22,6 +22,13 @@ def run_gen(prop, tier, regex, props=None, optsets=("full",), params_q=None, par
             c.run_schema(key, schemas, on, props or [prop], regex, params=params, skip=skip, only=only, hgen_extra=hgen_extra, ladder=ladder or (),
                          wall=wall_q if tier == "quick" else wall_t, max_models=max_models_q if tier == "quick" else max_models_t,
                          max_paths=max_paths_q if tier == "quick" else max_paths_t)
+    if prim:
+        # primitive-level obligations of pkg/basictl this property relies on, decided for ALL lengths (shared with C33)
+        hdir = os.path.join(VERIF, "harness", "basictl")
+        files = [os.path.join(hdir, f) for f in sorted(os.listdir(hdir)) if f.startswith("zz_verif_c33")]
+        c.run_pkg(REPO, "./pkg/basictl", os.path.join(REPO, "pkg/basictl"), "basictl", files, prim, params={"strlen": 8, "bits": 17, "maxalloc": 64},
+                  max_models=6, label="pkg/basictl")
+        c.assumptions.append("generated code reaches strings/sizes/Bool only through pkg/basictl primitives; their obligations (%s) are decided on buffers of symbolic length up to 2^57" % prim)
     c.assumptions += list(assumptions)
     b = dict(bounds or {})
     b.update(params)
@@ -34,14 +41,15 @@ VAL_T = {"D": 3, "L": 3, "S": 3, "B": 4}
 VAL_LADDER = [{"B": 2}, {"B": 2, "D": 1}, {"B": 1, "D": 1}]
 BYTES_Q = {"slack": 8, "maxN": 40, "D": 2, "L": 2, "S": 2, "B": 3}
 BYTES_T = {"slack": 16, "maxN": 96, "D": 2, "L": 2, "S": 2, "B": 3}
-BYTES_LADDER = [{"slack": 4}, {"slack": 0}]
+BYTES_LADDER = [{"slack": 0}]
 OUT_COMMON = ["inputs/values beyond the stated bounds", "schemas outside the corpus", "--split-internal layout"]
 
 SPEC = {
-    "C02": dict(params_q=BYTES_Q, params_t=BYTES_T, ladder=BYTES_LADDER, bounds=BYTES_BOUNDS, outside=OUT_COMMON, r_thorough=R_THOROUGH),
-    "C03": dict(params_q=BYTES_Q, params_t=BYTES_T, ladder=BYTES_LADDER + VAL_LADDER, bounds=dict(BYTES_BOUNDS, **VAL_BOUNDS), outside=OUT_COMMON, r_thorough=R_THOROUGH),
+    "C02": dict(params_q=BYTES_Q, params_t=BYTES_T, ladder=BYTES_LADDER, bounds=BYTES_BOUNDS, outside=OUT_COMMON, r_thorough=R_THOROUGH,
+                optsets=("full", "default"), prim="^VerifC33(StringReadAny|StringReadBytesAny|ReadBool|NatReadExactTag|PrimReadAny)$"),
+    "C03": dict(prim="^VerifC33(TL2Size|TL2ParseSizeAny|StringReadTL2Any|StringTL2RoundTrip|BitVector)$", params_q=BYTES_Q, params_t=BYTES_T, ladder=BYTES_LADDER + VAL_LADDER, bounds=dict(BYTES_BOUNDS, **VAL_BOUNDS), outside=OUT_COMMON, r_thorough=R_THOROUGH),
     "C04": dict(params_q=BYTES_Q, params_t=BYTES_T, ladder=BYTES_LADDER, bounds=BYTES_BOUNDS, outside=OUT_COMMON + ["JSON equality leg (see C05)"], r_thorough=R_THOROUGH),
-    "C08": dict(params_q=dict(BYTES_Q, slack8=8), params_t=dict(BYTES_T, slack8=16), ladder=[{"slack8": 0}, {"slack8": 0, "slack": 4}], bounds=BYTES_BOUNDS,
+    "C08": dict(prim="^VerifC33(StringReadAny|StringReadBytesAny|StringReadTL2Any|TL2ParseSizeAny|Skip|PrimReadAny)$", params_q=dict(BYTES_Q, slack8=8), params_t=dict(BYTES_T, slack8=16), ladder=[{"slack8": 0}, {"slack8": 0, "slack": 4}], bounds=BYTES_BOUNDS,
                 outside=OUT_COMMON + ["JSON readers and result transcoders"], r_thorough=R_THOROUGH),
     "C09": dict(params_q=dict(BYTES_Q, slack=4, slack1=0), params_t=dict(BYTES_T, slack=8, slack1=4), ladder=[{"slack": 0, "slack1": 0}] + VAL_LADDER,
                 bounds=dict(BYTES_BOUNDS, **VAL_BOUNDS), outside=OUT_COMMON + ["JSON as the second decode"], r_thorough=R_THOROUGH),
